@@ -27,7 +27,9 @@ def main() -> int:
     seed = common.env_seed()
 
     if a.replay:
-        logging.basicConfig(level=logging.WARNING)
+        from vf import logcfg  # noqa: PLC0415
+
+        logcfg.install()
         spec = json.loads(open(a.replay).read())
         if spec.get("chunk_policy"):
             from vf.sim import device as _device  # noqa: PLC0415
@@ -37,6 +39,8 @@ def main() -> int:
             from vf.sim import rotation as _rotation  # noqa: PLC0415
 
             _rotation.FORCED.update({k: list(v) for k, v in spec["rotation"].items()})
+            if "helper_logger_debug" in _rotation.FORCED:
+                _rotation.FORCED["helper_logger_debug"] = _rotation.FORCED["helper_logger_debug"][-1:] * 8   # engine W: the helper(s) of the witness
             for k in ("client_debug", "noise_hello_mac_field"):
                 _rotation.FORCED.setdefault(k, [])
         return int(mod.replay(spec) or 0)
